@@ -48,7 +48,7 @@ def shards(tier, seed):
     sh += [("tags", i) for i in range(16)]
     sh += [("route-history", i) for i in range(3)]
     sh += [("upload-paths", pn, pers) for pn in ("P3", "P4", "P2") for pers in ("v20", "v32")] + [("upload-paths", "P3", "m800"), ("upload-paths", "P1", "m800")]
-    sh += [("driver-paths", pn, pers) for pn in ("P1", "P3") for pers in ("v20", "v21", "v32")] + [("driver-paths", "P1", "m800"), ("driver-paths", "P1", "v17")]
+    sh += [("driver-paths", pn, pers) for pn in ("P1", "P3", "P2") for pers in ("v20", "v21", "v32")] + [("driver-paths", "P1", "m800"), ("driver-paths", "P1", "v17")]
     sh += [("tags", 3, "debuglog"), ("route-history", 0, "debuglog"), ("upload-paths", "P3", "v20", "debuglog"), ("reqpath", "debuglog")]
     return sh
 
@@ -248,6 +248,16 @@ def check_epathopts(rep):
             if not ok:
                 rep.violation("epath/word-count-or-pad", f"PADDED_EPATH.encode({want!r}, length={opts[0]}, pad_length={opts[1]}) -> {r[1].hex() if r[0]=='ok' else r!r}; parser {p!r:.100}",
                               {"kind": "epathopts", "want": repr(want), "opts": list(opts)})
+        # the segments in any kind of iterable (a sequence is not required: one-shot iterators and views give the same path), and mixed
+        # with pre-encoded bytes
+        for cname, mk in (("tuple", tuple), ("generator", lambda s: (x for x in s)), ("iter", iter), ("map", lambda s: map(lambda x: x, s)), ("dict-values", lambda s: {i: x for i, x in enumerate(s)}.values()),
+                          ("bytes-first", lambda s: [E.build(want[:1])] + list(s[1:])), ("bytes-first-generator", lambda s: (x for x in [E.build(want[:1])] + list(s[1:])))):
+            r = _enc(C.PADDED_EPATH.encode, mk(segs), length=True)
+            p = _parse(r[1], counted=True) if r[0] == "ok" else None
+            ok = p == ("ok", want)
+            rep.case(("epathiter", cname, repr(want)), outcome="ok" if ok else "bad")
+            if not ok:
+                rep.violation(f"epath/segments-container/{cname}", f"PADDED_EPATH.encode(<{cname} of the segments {want!r}>, length=True) -> {r[1].hex() if r[0]=='ok' else r!r}; parser {p!r:.100}", {"kind": "epathopts", "want": repr(want), "opts": [cname]})
         # already-encoded bytes pass through
         pre = E.build(want)
         r = _enc(C.PADDED_EPATH.encode, [pre[:2], pre[2:]], length=True)
@@ -415,6 +425,14 @@ DRIVER_CASES = {
         ("read", "big_sint{9000}", None, "big_sint"), ("write", "big_sint{9000}", [i % 100 for i in range(9000)], "big_sint"),
         ("read", "big_lint{700}", None, "big_lint"), ("write", "big_lint{700}", list(range(700)), "big_lint"), ("write", "big_sint[100]{8000}", [i % 50 for i in range(8000)], "big_sint[100]"),
         ("read", "even_name[299]", None, "even_name[299]"), ("write", "even_name{300}", list(range(300)), "even_name"),
+    ],
+    "P2": [
+        # an element of a BOOL array that sits below an indexed parent: the word index belongs to the BOOL array, the parent keeps its own
+        ("read", "arrs_ary[1].ba[33]", None, "arrs_ary[1].ba[1]|arrs_ary[1].ba[0]"), ("write", "arrs_ary[2].ba[40]", True, "arrs_ary[2].ba[1]"), ("write", "arrs_ary[1].ba[5]", True, "arrs_ary[1].ba[0]"),
+        ("write", "arrs_ary[1].ba[32]{32}", [bool(i % 5) for i in range(32)], "arrs_ary[1].ba[1]"), ("read", "arrs_ary[2].ba[32]{32}", None, "arrs_ary[2].ba[1]|arrs_ary[2].ba[0]"),
+        ("write", "arrs1.ba[63]", True, "arrs1.ba[1]"), ("read", "arrs_ary[2].sa[4]", None, "arrs_ary[2].sa[4]"), ("write", "arrs_ary[0].da[1]", 7, "arrs_ary[0].da[1]"),
+        ("read", "mid1.many[1].vals[2]", None, "mid1.many[1].vals[2]"), ("write", "outer1.mids[1].many[0].vals[1]", 5, "outer1.mids[1].many[0].vals[1]"), ("write", "outer1.mids[1].one.x.3", True, "outer1.mids[1].one.x"),
+        ("read", "padded_ary[2].d1", None, "padded_ary[2].d1"), ("read", "s20_ary[3].LEN", None, "s20_ary[3].LEN"), ("write", "str_ary[1]", "abc", "str_ary[1]"),
     ],
     "P3": [
         ("read", "ctl_dint", None, "ctl_dint"), ("read", "ctl_udt.a", None, "ctl_udt.a"), ("write", "ctl_udt.a", 5, "ctl_udt.a"), ("write", "ctl_udt.a.2", True, "ctl_udt.a"),
